@@ -29,3 +29,6 @@ def run(project, rep):
     from .. import rules_wire as W
     rep.run(W.l_r2_escaping, project, rep)
     rep.run(W.l_r2_escaping, project, rep, rule="W-R3", reader_decodable=True)
+    from .. import rules_dates as Z
+    rep.run(Z.z_r7_aware_values_kept, project, rep)
+    rep.run(Z.z_r3_writer_shape, project, rep)
